@@ -1,4 +1,4 @@
-import Nv.Proofs.C15Group
+import Nv.Proofs.C15Generic
 /-!
 C15 — property theorems for the mux worker group (model: `Nv.Model.C15`).
 -/
@@ -87,6 +87,42 @@ theorem mux_coherent_prefix (cfg : Cfg) (hd : DelOk cfg) (loc : Loc) (lru sized 
     Coherent (final (step cfg loc) (State.init lru sized cap workers) pre) ∧
     Coherent (final (step cfg loc) (State.init lru sized cap workers) (pre ++ post)) :=
   ⟨mux_coherent cfg hd loc lru sized cap workers pre, mux_coherent cfg hd loc lru sized cap workers (pre ++ post)⟩
+
+/-! ### any store that meets the callback contract (audit follow-up: `MutSpec` generalisation) -/
+
+/-- `mux_coherent_any_callbacks`: coherence does not depend on the in-memory store of the model. For ANY five callbacks
+that meet `CBSpec` — a load returns what is stored and writes nothing; a mutation either fails and leaves the store as
+it was or changes it at its key only and returns the row now stored; an upsert not handed the cached row may return a
+partial row; none touches the cache — every operation sequence leaves every worker's cache coherent with the store. -/
+theorem mux_coherent_any_callbacks (cb : CBs) (hs : CBSpec cb) (cfg : Cfg) (hd : DelOk cfg) (loc : Loc)
+    (lru sized : Bool) (cap workers : Nat) (ops : List (Op × List Bool)) :
+    Coherent (final (G.step cb cfg loc) (State.init lru sized cap workers) ops) :=
+  coherent_of_inv (G.inv_final hs cfg hd loc ops _ (inv_init loc lru sized cap workers))
+
+/-- every handler over such callbacks keeps its cache coherent, writes the store at its own key only, and caches
+nothing under another key -/
+theorem mux_handler_ok_any_callbacks (cb : CBs) (hs : CBSpec cb) (cfg : Cfg) (hd : DelOk cfg) (c : Ctx) (op : Op) :
+    HOk op.key c (G.handle cb cfg c op).1 := G.handle_ok hs cfg hd c op
+
+/-- the model of the property is the instance at the in-memory callbacks, and those meet the contract -/
+theorem mux_model_is_instance (cfg : Cfg) (loc : Loc) :
+    CBSpec memCBs ∧ (∀ s inp, G.step memCBs cfg loc s inp = step cfg loc s inp) :=
+  ⟨memCBs_spec, step_mem cfg loc⟩
+
+/-- the contract has teeth: an `addFn` that reports success without storing the row (so `MutSpec` fails) leaves the
+cache holding a row the store does not have -/
+def lyingAdd : CBs := { memCBs with add := fun c _ v => (.ok v, c) }
+
+theorem witness_lying_add_incoherent :
+    let s := final (G.step lyingAdd ⟨.storeFirst, .once⟩ locRemFirst) (State.init false false 0 1) [(.add 1 5, [])]
+    s.store = [] ∧ s.caches = [⟨false, false, 0, [(1, 5)]⟩] := by decide
+
+theorem lyingAdd_not_spec : ¬ CBSpec lyingAdd := by
+  intro hs
+  have h := mux_coherent_any_callbacks lyingAdd hs ⟨.storeFirst, .once⟩ (Or.inl rfl) locRemFirst false false 0 1 [(.add 1 5, [])]
+  have := h ⟨false, false, 0, [(1, 5)]⟩ (by decide) 1 5 (by decide)
+  revert this; decide
+
 
 /-- what `Get`/`Peek` of any worker returns is the store's value -/
 theorem mux_cached_value_is_stored (cfg : Cfg) (hd : DelOk cfg) (loc : Loc) (lru sized : Bool) (cap workers : Nat)
